@@ -50,6 +50,32 @@ def roundtrip(ctx, x, nw, case, normalform=False):
     return out
 
 
+def same_tree_twice(ctx, x, case):
+    """One parsed tree rendered by a MarkdownRenderer with normalize_whitespace=True and then by a default one: the second
+    rendering is the rendering of a fresh parse (rendering reads the spelling kept on the tokens, it does not rewrite it)."""
+    from mistletoe import Document
+    from mistletoe.markdown_renderer import MarkdownRenderer
+    ctx.ev()
+    try:
+        want = md(x)
+        try:
+            with MarkdownRenderer(normalize_whitespace=True) as r1:
+                doc = Document(x)
+                r1.render(doc)
+            with MarkdownRenderer() as r2:
+                got = r2.render(doc)
+        finally:
+            mt.reset()
+    except Exception as e:  # noqa
+        ctx.count('ambient', 'C01:' + mt.exc_site(e))
+        return
+    if got != want:
+        ctx.violation('rendering-rewrites-the-tree', 'default rendering after a normalize_whitespace rendering of the same tree', case,
+                      text=x, fresh=want, after_other_rendering=got, first_difference=first_diff(want, got))
+    else:
+        ctx.count('held', 'same tree, second renderer')
+
+
 def first_diff(a, b):
     la, lb = a.split('\n'), b.split('\n')
     for i, (p, q) in enumerate(zip(la, lb)):
@@ -78,6 +104,8 @@ def check_generated(ctx, seed, profile, nw):
         return None
     case = {'kind': 'generated', 'seed': seed, 'profile': profile, 'normalize_whitespace': nw}
     res = roundtrip(ctx, doc.text, nw, case, normalform=(profile == 'normalform'))
+    if nw and seed % 3 == 0:
+        same_tree_twice(ctx, doc.text, dict(case, kind='generated-same-tree'))
     if res is None:
         return doc
     if not res:
@@ -226,6 +254,8 @@ def replay(ctx, case):
         check_spec(ctx, ex, case['normalize_whitespace'])
     elif case['kind'] == 'generated':
         check_generated(ctx, case['seed'], case['profile'], case['normalize_whitespace'])
+    elif case['kind'] == 'generated-same-tree':
+        same_tree_twice(ctx, gen.generate(random.Random(case['seed']), profile=case['profile']).text, case)
     elif case['kind'] == 'odd-blank':
         key, x = list(odd_blank_cases())[case['index']]
         for clause, detail in (roundtrip(ctx, x, False, {}) or []):
